@@ -388,3 +388,77 @@ Example C04_nonvacuous_chain :
   map p_id (chain_tags true [cra; trail]) = [-1; -2; -3; 7; 8]%Z.
 Proof. vm_compute. repeat split. Qed.
 
+(* ---- faults in BOTH callbacks -------------------------------------------------------------------
+   Consumer.Consume panics in its [panic_at c]-th call; Consumer.Close returns, panics or never
+   returns ([close_of c]).  Model/C04Faults.v re-states the goroutine's clean-up as its real sequence
+   under the silent inner recover(): StopConsume (unregister, [remove.loaded], count--,
+   consumption.Close), then Consumer.Close (a panic is swallowed and skips the rest; a Close that
+   blocks parks the goroutine for ever), then the queue reset.  [fstep true] is the code as it is,
+   [fstep false] the order Close, StopConsume. *)
+From V Require Import C04Faults C04FaultsProofs.
+Local Open Scope nat_scope.
+
+(* Whatever Close does: a consumer whose Consume panicked is handed nothing more, is out of the map at
+   once, its one remaining step (always enabled) counts it out and ends with Consumer.Close entered
+   exactly once - and the counter is that of the fault-free run (C03_count_is_registered applies). *)
+Theorem C04_panic_detaches_whatever_close_does :
+  forall maxq cache_t cache_empty cache_add cache_snap ncons panic_at
+         (close_of : nat -> close_mode) pkts stoppers sched c,
+  0 < panic_at c ->
+  let fstepT := fstep true maxq cache_t cache_empty cache_add cache_snap ncons panic_at close_of in
+  let sb := frun true maxq cache_t cache_empty cache_add cache_snap ncons panic_at close_of sched
+                 (finit cache_t cache_empty pkts stoppers) in
+  let s0 := run fixed maxq cache_t cache_empty cache_add cache_snap ncons panic_at sched
+                (init cache_t cache_empty pkts stoppers) in
+  let k := s_cs _ (fst sb) c in
+  s_count _ (fst sb) = s_count _ s0 /\
+  length (c_out k) <= panic_at c /\
+  (c_closes k = 1 <-> c_pc k = CDone) /\
+  (panic_at c <= length (c_out k) ->
+     c_reg k = false /\ (c_pc k = CExitLoaded \/ c_pc k = CDone) /\
+     (c_pc k = CExitLoaded ->
+        exists sb', fstepT sb (TCons c) = Some sb' /\
+                    c_pc (s_cs _ (fst sb') c) = CDone /\ c_closes (s_cs _ (fst sb') c) = 1 /\
+                    c_reg (s_cs _ (fst sb') c) = false /\
+                    s_count _ (fst sb') = (s_count _ (fst sb) - 1)%Z)).
+Proof. exact panic_detaches_whatever_close_does. Qed.
+Print Assumptions C04_panic_detaches_whatever_close_does.
+
+(* ... and nobody else is affected: two runs that differ only in what the consumers' Close does agree on
+   the publisher, the mutex, the counter, the closer, every attacher and stopper, and on every consumer
+   up to the queue of a finished one (which nobody references any more) *)
+Theorem C04_close_behaviour_does_not_affect_anybody :
+  forall maxq cache_t cache_empty cache_add cache_snap ncons panic_at
+         (close_of close_of' : nat -> close_mode) pkts stoppers sched,
+  let s := fst (frun true maxq cache_t cache_empty cache_add cache_snap ncons panic_at close_of sched
+                     (finit cache_t cache_empty pkts stoppers)) in
+  let s' := fst (frun true maxq cache_t cache_empty cache_add cache_snap ncons panic_at close_of' sched
+                      (finit cache_t cache_empty pkts stoppers)) in
+  s_count _ s = s_count _ s' /\ s_sent _ s = s_sent _ s' /\ s_todo _ s = s_todo _ s' /\ s_pp _ s = s_pp _ s' /\
+  s_lock _ s = s_lock _ s' /\ s_lockq _ s = s_lockq _ s' /\ s_ok _ s = s_ok _ s' /\ s_kp _ s = s_kp _ s' /\
+  (forall x, s_att _ s x = s_att _ s' x) /\ (forall x, s_stp _ s x = s_stp _ s' x) /\
+  (forall x, noq (s_cs _ s x) = noq (s_cs _ s' x) /\
+             (c_pc (s_cs _ s x) <> CDone -> s_cs _ s x = s_cs _ s' x)).
+Proof. exact close_behaviour_does_not_affect_anybody. Qed.
+Print Assumptions C04_close_behaviour_does_not_affect_anybody.
+
+(* the order Close, StopConsume: a Close that panics or blocks leaves the consumer in the map for ever *)
+Theorem C04_close_before_stop_refuted :
+  (let s := fst (lfrun false faults_refute_case (fun _ => ClosePanics)) in
+   c_reg (s_cs _ s 0) = true /\ c_pc (s_cs _ s 0) = CDone /\ s_count _ s = 1%Z /\
+   length (c_q (s_cs _ s 0)) = 2 /\ map p_id (c_out (s_cs _ s 0)) = [1%Z]) /\
+  (let s := fst (lfrun false faults_refute_case (fun _ => CloseBlocks)) in
+   c_reg (s_cs _ s 0) = true /\ s_count _ s = 1%Z /\ length (c_q (s_cs _ s 0)) = 2) /\
+  (let s := fst (lfrun true faults_refute_case (fun _ => ClosePanics)) in
+   c_reg (s_cs _ s 0) = false /\ c_pc (s_cs _ s 0) = CDone /\ s_count _ s = 0%Z /\ c_closes (s_cs _ s 0) = 1).
+Proof. exact close_before_stop_refuted. Qed.
+Print Assumptions C04_close_before_stop_refuted.
+
+(* the oracle of the fault cases: [ok_C04x], Consumer.Close entered exactly once by a finished goroutine
+   and never before, and the counter equal to the number of registered consumers when no removal is in
+   flight *)
+Theorem C04_faults_model_passes_on_the_wire : forall v,
+  l_var (dec_lcase v) = fixed -> ok_faults (dec_lcase v) (dec_obs (faults_run v)) = true.
+Proof. exact faults_model_passes_on_the_wire. Qed.
+Print Assumptions C04_faults_model_passes_on_the_wire.
+
